@@ -71,7 +71,9 @@ def run_property(prop, tier, seed, only_stage=None, quiet=False):
                     for c in g:
                         group_of[id(c)] = g
             sr = runner.run_stage(st['variant'], groups, tool=st.get('tool'), prefix=st.get('prefix'),
-                                  env=st.get('env'), timeout=st.get('timeout', 1200), binary=binary)
+                                  env=st.get('env'), timeout=st.get('timeout', 600), binary=binary, mem=st.get('mem', 'default'), keep_raw=st.get('keep_raw', False))
+            if st.get('post'):
+                st['post'](sr)
         if not quiet:
             print('[%s] stage %-22s variant=%-10s tool=%-8s cmds=%d events=%d evals=%d cells=%d problems=%d %.1fs' % (
                 prop, label, st.get('variant'), st.get('tool'), sum(len(g) for g in st.get('groups', [])), sr.events,
